@@ -127,6 +127,18 @@ func genC02(c *Ctx) {
 			}
 		}
 	}
+	// (a3b) the same with a source that stays inside its cancelled Emit call for well over two seconds: however long the
+	//       reader needs, the terminal returns only after it has left the provider (no grace period)
+	for _, op := range []string{"pipe", "buf", "cmap", "ccons"} {
+		e := " limit=1"
+		if op == "ccons" {
+			e = " mf=0"
+		}
+		if op == "pipe" {
+			e = " reads=2"
+		}
+		emit(true, fmt.Sprintf("%s c=1 n=8 size=3 sync=1 mg=0 park=1%s slowret=150 slowhold=2300 rep=2 script=-", op, e))
+	}
 	// (a4) a lifecycle element placed after the asynchronous stage whose Open fails (error / panic) while the stage's reader
 	//      sits inside a slow-to-cancel Emit; the same stream value materialised again: the failed open must have
 	//      closed the stage (stopped and joined its reader) before the terminal returns
